@@ -11,6 +11,7 @@ import (
 	"io"
 	"net"
 	"net/http"
+	"sort"
 	"strconv"
 	"strings"
 	"sync"
@@ -25,12 +26,15 @@ import (
 type connCase struct {
 	ID   int      `json:"id"`
 	Reqs []string `json:"reqs"`
+	SD   bool     `json:"sd"` // run while the server is in graceful-shutdown state
 }
 
 type connResp struct {
 	St      int `json:"st"`
 	ID      int `json:"id"`
 	Interim int `json:"interim"`
+	// the response carries "Connection: close"
+	Announced bool `json:"announced"`
 }
 
 const (
@@ -156,7 +160,17 @@ func connCmd() {
 	})
 	sem := make(chan struct{}, 24)
 	var wg sync.WaitGroup
+	// two phases: first every case of the normally running server, then (the state cannot be left again)
+	// the cases served while the server is in graceful shutdown: what ShutdownHandler does first is
+	// close(CloseNotifyCh); the listeners stay open here so that the cases can still connect.
+	sort.SliceStable(cases, func(a, b int) bool { return !cases[a].SD && cases[b].SD })
+	shut := false
 	for _, c := range cases {
+		if c.SD && !shut {
+			wg.Wait()
+			close(s.Srv.CloseNotifyCh)
+			shut = true
+		}
 		wg.Add(1)
 		sem <- struct{}{}
 		go func(c *connCase) {
@@ -170,6 +184,18 @@ func connCmd() {
 		}(c)
 	}
 	wg.Wait()
+}
+
+// announced: the response carries the connection option "close" (RFC 7230 6.1)
+func announced(h http.Header) bool {
+	for _, v := range h.Values("Connection") {
+		for _, t := range strings.Split(v, ",") {
+			if strings.EqualFold(strings.TrimSpace(t), "close") {
+				return true
+			}
+		}
+	}
+	return false
 }
 
 func runConnCase(s *e2e.Server, c *connCase) map[string]interface{} {
@@ -224,7 +250,7 @@ func runConnCase(s *e2e.Server, c *connCase) map[string]interface{} {
 		}
 		if r.UntilEOF {
 			// delimited by the end of the connection (e.g. the bare 400/413 replies): nothing can follow
-			resps = append(resps, connResp{St: r.Status, ID: id, Interim: interim})
+			resps = append(resps, connResp{St: r.Status, ID: id, Interim: interim, Announced: r.Close || announced(r.Header)})
 			interim = 0
 			closed = true
 			break
@@ -237,7 +263,7 @@ func runConnCase(s *e2e.Server, c *connCase) map[string]interface{} {
 			garbage = true
 			note = fmt.Sprintf("body %.40q does not belong to request %d", r.Body, id)
 		}
-		resps = append(resps, connResp{St: r.Status, ID: id, Interim: interim})
+		resps = append(resps, connResp{St: r.Status, ID: id, Interim: interim, Announced: r.Close || announced(r.Header)})
 		interim = 0
 		if len(resps) == len(c.Reqs) {
 			// everything answered: is the connection still usable ?
